@@ -37,6 +37,18 @@ def model_check(ctx, cfgs, timeout, liveness=False):
     ctx.exhaustive = True
 
 
+def negative_control(ctx, cfg, prop, timeout=600):
+    """A configuration of the specification with a known-bad constant: TLC must refute prop (guards against a
+    property that cannot fail)."""
+    if os.environ.get("VERIF_LC_SKIP_MC"):
+        return
+    r = ctx.tlc(FAMILY, "MC_Lifecycler", cfg=cfg + ".cfg", timeout=timeout, deadlock=False, count=False,
+                workers=int(os.environ.get("VERIF_TLC_WORKERS", "0")) or None)
+    if r.timed_out or r.violated != prop:
+        raise verif.Inconclusive("negative control %s: expected TLC to refute %s, got %s" % (cfg, prop, r.violated or r.error or "no violation"))
+    ctx.extra["negative_controls_refuted"] = ctx.extra.get("negative_controls_refuted", 0) + 1
+
+
 def split_traces(path):
     """[(label, first_line_no (1-based), [events...])] of a concatenated trace file."""
     traces = []
